@@ -189,6 +189,25 @@ def fp_index(ip, agent):
     return (0 if ip == 'a1' else 2) + (1 if agent == 'u1' else 2)
 
 
+def extra_header(xh, xa):
+    """A further header the client sets freely, naming address `xa` -> (name, value) or None."""
+    if xh == 'none':
+        return None
+    addr = IPS[xa]
+    return {
+        'xff': ('X-Forwarded-For', addr),
+        'xfflist': ('X-Forwarded-For', '%s, 10.9.8.7' % addr),
+        'xrealip': ('X-Real-IP', addr),
+        'forwarded': ('Forwarded', 'for=%s;proto=http' % addr),
+        'via': ('Via', '1.1 %s' % addr),
+        'clientip': ('Client-IP', addr),
+        'xclientip': ('X-Client-IP', addr),
+    }[xh]
+
+
+XNAMES = ('xff', 'xfflist', 'xrealip', 'forwarded', 'via', 'clientip', 'xclientip')
+
+
 def who_of(ip, agent):
     """The fingerprint suffix as an attacker computes it (public algorithm)."""
     return hashlib.sha1(('%s%s' % (IPS[ip], AGENTS[agent])).encode('utf-8')).hexdigest()
@@ -196,11 +215,20 @@ def who_of(ip, agent):
 
 # -- virtual hosts -----------------------------------------------------------
 
-GATEWAY = '203.0.113.1'
-GATEWAY2 = '203.0.113.2'
-OTHER_ADDR = '198.51.100.99'
+# texts chosen so that "1" + address and address + "0" are again plausible IPv4 texts and no
+# address is an affix of another one
+GATEWAY = '10.0.0.1'
+GATEWAY2 = '10.20.30.4'
+OTHER_ADDR = '98.51.100.9'
 DOMAINS = {'a.example': 'a', 'b.example': 'b'}
 REMOTES = {'g': GATEWAY, 'g2': GATEWAY2, 'other': OTHER_ADDR}
+
+
+def remote_text(remote, rpre, rpost):
+    """The peer address as a token sequence <<rpre, remote, rpost>> -> text:
+    ("1", g, "") = 110.0.0.1 has the gateway 10.0.0.1 as proper suffix, ("", g, "0")
+    = 10.0.0.10 as proper prefix, ("v6", g, "") = ::ffff:10.0.0.1 is the IPv4-mapped form."""
+    return {'': '', '1': '1', 'v6': '::ffff:'}[rpre] + REMOTES[remote] + rpost
 
 
 def trusted_of(t):
